@@ -420,7 +420,9 @@ def prepare(obs, shifts_for=None, extra_inst_terms=None, units=(), last_for=None
         # with declared units, named segment lengths are byte quantities and anchors are unit (sector) positions
         shifts = [z3.IntVal(0)] + named + banchors + ([] if units else anchors)
         ushifts = [z3.IntVal(0)] + (anchors if units else named + anchors)
-        for ai, (extra, sk, body) in enumerate(split_goal(ob.goal)):
+        # a goal that is syntactically True still is an obligation of the contract (it becomes False when the code changes, e.g. a codec
+        # tag): it is kept as one trivial query so that the obligation is counted, recorded in the ledger and missed when it fails
+        for ai, (extra, sk, body) in enumerate(split_goal(ob.goal) or [([], [], z3.BoolVal(True))]):
             hyps = []
             for h in list(ob.hyps) + list(extra):
                 flatten(h, hyps)
